@@ -279,3 +279,127 @@ def count_lines_child(entry_name: str, members: t.Sequence[t.Any], cpu_limit: in
         # killed: the counts measured so far are still exact
         return vals + [None] * (len(members) - len(vals))  # type: ignore[list-item]
     return vals
+
+
+def ramp_many(
+    entry_name: str,
+    members: t.Sequence[t.Callable[[int], t.Any]],
+    start: int,
+    step: int,
+    max_len: int,
+    stop_s: float,
+    alarm_s: int,
+    max_points: int = 400,
+    max_kills: int = 2,
+) -> t.List[Ramp]:
+    """Like ``ramp`` for a batch of families, sharing one forked child as long as it survives (a fork per family is
+    the dominant cost of a sweep). The CPU alarm is re-armed for every family; when the child is killed, the family
+    it was working on is reported as killed and the remaining families continue in a fresh child."""
+    results: t.List[t.Optional[Ramp]] = [None] * len(members)
+    nxt = 0
+    kills = 0
+    while nxt < len(members):
+        if kills >= max_kills:
+            # enough evidence that something blows up here: the rest of the batch is not ramped (reported as skipped)
+            for i in range(nxt, len(members)):
+                results[i] = Ramp([], [], None, "skipped")
+            break
+        r, w = os.pipe()
+        pid = os.fork()
+        if pid == 0:
+            try:
+                os.close(r)
+                import gc
+
+                gc.disable()
+                signal.signal(signal.SIGVTALRM, signal.SIG_DFL)
+                signal.signal(signal.SIGALRM, signal.SIG_DFL)
+                fn = entry(entry_name)
+                out = []
+                for idx in range(nxt, len(members)):
+                    signal.setitimer(signal.ITIMER_VIRTUAL, float(alarm_s))
+                    signal.alarm(alarm_s * 20 + 60)
+                    out.append(f"F {idx}\n")
+                    os.write(w, "".join(out).encode())
+                    out = []
+                    member = members[idx]
+                    n = start
+                    end = "S"
+                    for _ in range(max_points):
+                        m = member(n)
+                        if len(m) > max_len:
+                            break
+                        os.write(w, f"B {n}\n".encode())
+                        t0 = time.process_time()
+                        ok = 1
+                        try:
+                            fn(m)
+                        except Exception:
+                            ok = 0
+                        except RecursionError:
+                            ok = 0
+                        dt = time.process_time() - t0
+                        out.append(f"P {n} {dt:.6f} {ok}\n")
+                        if dt > stop_s:
+                            end = "T"
+                            break
+                        n += step
+                    out.append(end + "\n")
+                os.write(w, "".join(out).encode())
+            except BaseException:
+                try:
+                    os.write(w, b"E\n")
+                except Exception:
+                    pass
+            finally:
+                os._exit(0)
+        os.close(w)
+        buf = b""
+        while True:
+            chunk = os.read(r, 1 << 16)
+            if not chunk:
+                break
+            buf += chunk
+        os.close(r)
+        _, status = os.waitpid(pid, 0)
+        cur: t.Optional[int] = None
+        points: t.List[t.Tuple[int, float]] = []
+        raised: t.List[bool] = []
+        begun: t.Optional[int] = None
+        finished_all = False
+
+        def close(stopped: str, killed_at: t.Optional[int] = None) -> None:
+            if cur is not None:
+                results[cur] = Ramp(list(points), list(raised), killed_at, stopped)
+
+        for line in buf.decode().splitlines():
+            if line.startswith("F "):
+                cur = int(line.split()[1])
+                points, raised, begun = [], [], None
+            elif line.startswith("B "):
+                begun = int(line.split()[1])
+            elif line.startswith("P "):
+                _p, n_, dt_, ok_ = line.split()
+                points.append((int(n_), float(dt_)))
+                raised.append(ok_ == "0")
+                begun = None
+            elif line in ("S", "T"):
+                close("size" if line == "S" else "threshold")
+                if cur is not None:
+                    nxt = cur + 1
+                cur = None
+            elif line == "E":
+                close("error")
+                if cur is not None:
+                    nxt = cur + 1
+                cur = None
+        if cur is not None:
+            # the child died while working on family ``cur``
+            close("killed" if os.WIFSIGNALED(status) else "error", begun)
+            kills += 1
+            nxt = cur + 1
+        elif nxt < len(members) and not buf:
+            # nothing at all came back: avoid looping forever
+            results[nxt] = Ramp([], [], None, "error")
+            nxt += 1
+    return [r_ if r_ is not None else Ramp([], [], None, "error") for r_ in results]
